@@ -203,6 +203,58 @@ def dir_output_rerun_case(args):
         sc.close()
 
 
+def setout_only_case(args):
+    """an out-port that is declared through SetOut only -- the command names its result file itself, there is no {o:...}
+    placeholder for it: when that file exists (planted before the first run, or left by a first run) the command is not
+    executed, the file keeps inode, mtime and bytes, and the downstream process still gets it"""
+    seed, i = args
+    rng = random.Random(seed * 15485933 + i)
+    sp = t3.Spec(maxtasks=rng.randint(1, 3), bufsize=rng.choice([1, 128]))
+    L = rng.randint(1, 3)
+    paths = ["so%d.txt" % j for j in range(L)]
+    for p in paths:
+        sp.files[p] = p + "\n"
+    s = sp.src("src", paths)
+    a = sp.proc(t3.RawProc("indexer", "echo indexer {i:a} >> ../ran.log && echo index of {i:a} > {i:a|basename}.idx",
+                           ins=[("a", [(s, "out")])], outs=[("idx", "{i:a|basename}.idx")]))
+    sp.proc(t3.RawProc("user", "echo user {i:in} >> ../ran.log && cat {i:in} > {o:o}", ins=[("in", [(a, "idx")])], outs=[("o", "{i:in}.used")]))
+    planted = (i % 2 == 0)
+    if planted:
+        sp.files[paths[0] + ".idx"] = "PRECOMPUTED INDEX\n"
+    sc = t3.Scratch()
+    try:
+        sc.plant(sp.files)
+        st0 = stamps(t3.snapshot_dir(sc.work), [paths[0] + ".idx"]) if planted else {}
+        r1 = t3.run_impl(sc, sp)
+        problems = []
+        log1 = r1["fs"]["ran.log"][1] if "ran.log" in r1["fs"] else ""
+        if r1["rc"] != 0 or not r1["returned"]:
+            problems.append(("unexpected-failure", r1["stderr"][-200:]))
+        else:
+            if planted:
+                if "indexer ../%s" % paths[0] in log1:
+                    problems.append(("skipped-task-executed", "the output %s.idx of the task existed (declared through SetOut only), yet its command was executed" % paths[0]))
+                if stamps(r1["fs"], [paths[0] + ".idx"]) != st0:
+                    problems.append(("existing-output-modified", "pre-existing output %s.idx changed (inode, mtime, bytes)" % paths[0]))
+                if t3.data_files(r1["fs"]).get(paths[0] + ".idx.used") != "PRECOMPUTED INDEX\n":
+                    problems.append(("downstream", "the downstream task did not get the existing file"))
+            before = {p: (v[2], v[3], v[1]) for p, v in r1["fs"].items() if v[0] == "f" and not t3.IGNORED.match(p) and not p.endswith(".audit.json") and p != "ran.log"}
+            r2 = t3.run_impl(sc, sp)
+            log2 = (r2["fs"]["ran.log"][1] if "ran.log" in r2["fs"] else "")[len(log1):]
+            if r2["rc"] != 0 or not r2["returned"]:
+                problems.append(("rerun-fails", "re-running the completed workflow exits %s: %s" % (r2["rc"], r2["stderr"][-200:])))
+            if log2.strip():
+                problems.append(("rerun-executes", "re-running a completed workflow executed %s" % log2.split("\n")[:3]))
+            after = {p: (v[2], v[3], v[1]) for p, v in r2["fs"].items() if v[0] == "f" and not t3.IGNORED.match(p) and not p.endswith(".audit.json") and p != "ran.log"}
+            ch = [p for p in before if before[p] != after.get(p)]
+            if ch:
+                problems.append(("rerun-modifies", "re-running a completed workflow changed %s" % ch[:3]))
+        return {"spec": sp.text(), "bufsize": sp.bufsize, "problems": problems[:3], "ntasks": 2 * L, "nskip": L, "rc": r1["rc"], "stderr": r1["stderr"][-200:],
+                "yield": None, "wall": r1["wall"], "gofunc": 0}
+    finally:
+        sc.close()
+
+
 def run(rep, tier, seed):
     proved = vlib.prove(rep, MODULE, THEOREMS)
     ok, msg = vlib.build_ocaml()
@@ -211,13 +263,14 @@ def run(rep, tier, seed):
     n = 100 if tier == "quick" else 2000
     results = [r for r in t3.run_many(case, [(seed, i) for i in range(n)]) if r]
     results += [r for r in t3.run_many(interrupted_case, [(seed, i) for i in range(n // 4)]) if r]
+    results += t3.run_many(setout_only_case, [(seed, i) for i in range(n // 12)])
     results += t3.run_many(dir_output_rerun_case, [(seed, i) for i in range(n // 12)])
     results += [r for r in t3.run_many(tagged_rerun_case, [(seed, i) for i in range(n // 10)]) if r]
     results += t3.run_many(ks.ks_case, [(seed, i, ("rerun",)) for i in range(n // 8)])
     t3.report_t3(rep, MODULE, proved, results, "T3 planted outputs / re-run")
     rep.cov["evaluations"] = len(results) * 2
     rep.cov["distinct_nontrivial"] = len({r["spec"] for r in results if r["nskip"] >= 1})
-    rep.cov["rule"] = "random workflows (shell and Go-function processes); the outputs of a random subset of tasks are pre-created with arbitrary bytes; run on the real library: file set and bytes equal the model's prediction computed from the planted bytes, no command of a skipped task in the trace, (inode, mtime-ns, bytes) of planted files unchanged; then the completed workflow is run again in place: no command, no file changed; workflows with directory-valued outputs run twice in place; workflows in which a fanned-out port feeds a tagging component and a process whose output name depends on the tags are run twice in place (no command, no new or changed file in the second run); non-trivial = at least one task skipped"
+    rep.cov["rule"] = "random workflows (shell and Go-function processes); the outputs of a random subset of tasks are pre-created with arbitrary bytes; run on the real library: file set and bytes equal the model's prediction computed from the planted bytes, no command of a skipped task in the trace, (inode, mtime-ns, bytes) of planted files unchanged; then the completed workflow is run again in place: no command, no file changed; workflows with directory-valued outputs run twice in place; out-ports declared through SetOut only (no placeholder in the command), planted or re-run; workflows in which a fanned-out port feeds a tagging component and a process whose output name depends on the tags are run twice in place (no command, no new or changed file in the second run); non-trivial = at least one task skipped"
     rep.cov["rule"] += "; plus kitchen-sink workflows (tools/ks.py: random workflows decorated with tagging components, sub-streams, Concatenator / FileSplitter, streamed pairs, component parameter feeders, Go-function and multi-core processes, RunTo) judged by the model-free re-run oracle"
     rep.cov["samples"] = [results[0]["spec"]]
     rep.notes["input_distribution"] = {"runs": len(results), "tasks": sum(r["ntasks"] for r in results), "skipped_tasks": sum(r["nskip"] for r in results),
